@@ -306,6 +306,8 @@ pub enum Mode {
 pub struct Progress {
     /// (case index, start time in ms since run start) of the case each shard is executing
     pub cur: Vec<(AtomicU64, AtomicU64)>,
+    /// lazily serialisable copy of the case each shard is executing (for the watchdog)
+    pub slot: Vec<Mutex<Option<Box<dyn Fn() -> Value + Send>>>>,
     pub t0: Instant,
 }
 
@@ -313,6 +315,7 @@ impl Progress {
     pub fn new() -> Arc<Progress> {
         Arc::new(Progress {
             cur: (0..NSHARDS).map(|_| (AtomicU64::new(0), AtomicU64::new(u64::MAX))).collect(),
+            slot: (0..NSHARDS).map(|_| Mutex::new(None)).collect(),
             t0: Instant::now(),
         })
     }
@@ -343,6 +346,10 @@ pub trait PartDyn: Send + Sync {
     fn replay(&self, case: &Value, mode: Mode) -> Result<Result<Outcome, String>, PanicInfo>;
     /// may this part's generator be swept by C07 in PanicOnly mode?
     fn in_c07_domain(&self) -> bool;
+    /// regenerate (without executing) case number `index` of a shard: lets the watchdog save a stuck case
+    fn regenerate(&self, _seed: u64, _shard: usize, _index: u64) -> Option<Value> {
+        None
+    }
 }
 
 // ---------------------------------------------------------------------------
@@ -478,6 +485,20 @@ where
             };
             if !shrinking {
                 a.progress.begin(a.shard, idx.get());
+                {
+                    let copy = case.clone();
+                    *a.progress.slot[a.shard].lock().unwrap() = Some(Box::new(move || serde_json::to_value(&copy).unwrap_or(Value::Null)));
+                }
+                if let Ok(v) = std::env::var("RQV_DEBUG_SHARD") {
+                    if v == a.shard.to_string() {
+                        println!("shard {} case {} fp {:016x}", a.shard, idx.get(), fp_of(&case));
+                        if let Ok(d) = std::env::var("RQV_DEBUG_DUMP") {
+                            if d == idx.get().to_string() {
+                                println!("{}", serde_json::to_string(&case).unwrap());
+                            }
+                        }
+                    }
+                }
             }
             idx.set(idx.get() + 1);
             let j = judge(&*self.check, &case, a.known);
@@ -594,20 +615,9 @@ where
         };
         guarded(|| (self.check)(&c))
     }
-}
 
-impl<C> Part<C>
-where
-    C: Clone + Debug + Serialize + DeserializeOwned + Send + Sync + 'static,
-{
-    /// regenerate case number `index` of a shard without executing it (watchdog support)
-    pub fn regenerate(&self, seed: u64, shard: usize, ncases: u64, index: u64) -> Option<Value> {
-        let cfg = Config {
-            cases: ncases as u32,
-            failure_persistence: None,
-            rng_seed: RngSeed::Fixed(derive_seed(seed, self.name, shard)),
-            ..Config::default()
-        };
+    fn regenerate(&self, seed: u64, shard: usize, index: u64) -> Option<Value> {
+        let cfg = Config { cases: (index + 1) as u32, failure_persistence: None, rng_seed: RngSeed::Fixed(derive_seed(seed, self.name, shard)), ..Config::default() };
         let mut runner = TestRunner::new(cfg);
         let strat = (self.strat)();
         let mut out = None;
@@ -732,7 +742,7 @@ pub struct RunReport {
 }
 
 /// Run every part of a property over NSHARDS threads.  Stops launching further parts after a failure.
-pub fn run_parts(parts: &[&Box<dyn PartDyn>], tier: Tier, seed: u64, mode: Mode, known: &[KnownFinding], scale: f64, health_req: &[(&'static str, &'static str, f64)]) -> RunReport {
+pub fn run_parts(prop_id: &str, parts: &[&Box<dyn PartDyn>], tier: Tier, seed: u64, mode: Mode, known: &[KnownFinding], scale: f64, health_req: &[(&'static str, &'static str, f64)]) -> RunReport {
     let t0 = Instant::now();
     let mut health = Vec::new();
     let mut total = Stats::default();
@@ -747,6 +757,7 @@ pub fn run_parts(parts: &[&Box<dyn PartDyn>], tier: Tier, seed: u64, mode: Mode,
             let pr = progress.clone();
             let dn = done.clone();
             let pname = p.name().to_string();
+            let prop_id = prop_id.to_string();
             s.spawn(move || {
                 let limit_ms: u64 = std::env::var("RQV_WATCHDOG_S").ok().and_then(|v| v.parse().ok()).unwrap_or(60) * 1000;
                 while !dn.load(Ordering::Relaxed) {
@@ -755,14 +766,19 @@ pub fn run_parts(parts: &[&Box<dyn PartDyn>], tier: Tier, seed: u64, mode: Mode,
                     for (sh, (idx, start)) in pr.cur.iter().enumerate() {
                         let st = start.load(Ordering::Relaxed);
                         if st != u64::MAX && now > st && now - st > limit_ms {
-                            println!(
-                                "WATCHDOG part={} shard={} case_index={} running for {} ms: inconclusive",
-                                pname,
-                                sh,
-                                idx.load(Ordering::Relaxed),
-                                now - st
-                            );
-                            std::process::exit(2);
+                            let index = idx.load(Ordering::Relaxed);
+                            println!("WATCHDOG part={} shard={} case_index={} running for {} ms: inconclusive", pname, sh, index, now - st);
+                            let stuck = pr.slot[sh].lock().ok().and_then(|g| g.as_ref().map(|f| f()));
+                            if let Some(case) = stuck {
+                                let root = std::env::var("VERIF_ROOT").unwrap_or_else(|_| "/verif".to_string());
+                                let _ = std::fs::create_dir_all(format!("{}/work/violations", root));
+                                let path = format!("{}/work/violations/hang-{}-seed{}.json", root, pname, seed);
+                                let v = json!({"property": prop_id, "part": pname, "seed": seed, "message": "watchdog: case did not finish", "case": case});
+                                let _ = std::fs::write(&path, serde_json::to_string_pretty(&v).unwrap());
+                                println!("stuck case saved to {}", path);
+                                println!("HANG-CANDIDATE replay={}", path);
+                            }
+                            std::process::exit(3);
                         }
                     }
                 }
